@@ -18,11 +18,17 @@
    The same for the pre-commit under anti-MEV (SignP.v .. SignPNoCV.v, the construction with the roles of the two phases exchanged):
    the node asks for pre-commit data at most once per epoch, its own PreCommit slot keeps that pre-commit, and from that request
    on no call changes the view or makes it broadcast a ChangeView, and every PreCommit it broadcasts is the one built then.
+   Retransmission inside a recovery message (P09b.v, SignLRM.v): wherever it is called, sendRecoveryMessage of a node whose own
+   Commit slot is filled broadcasts a recovery message of the node's height and view carrying that Commit whole; and in every
+   history of an epoch, once the node has signed, every RecoveryRequest is answered with a recovery message of the signed
+   commit's view that carries the signed commit (what the reference application's reconstruction needs to rebuild it
+   identically: Properties/C19.v commit_rebuilt_under_its_own_height_and_view_is_the_original).
    The history-level clauses about proposals, responses and pre-commits (no two per view / at all), the commits carried inside
-   recovery messages, view monotonicity of the outgoing messages and the recovery contents are NOT proved; they
+   the recovery messages sent on other occasions (timeouts, ChangeViews of peers), view monotonicity of the outgoing messages
+   and the other recovery contents are NOT proved; they
    are decided by the monitors on the real library over the generated histories (DESIGN.md section 0.1). *)
 From Coq Require Import ZArith List.
-From DbftV Require Import P03 P02 SignLApi SignLCV Typed SignLNoCV SignLCM SignPApi SignPNoCV SignPPM.
+From DbftV Require Import P03 P02 SignLApi SignLCV Typed SignLNoCV SignLCM SignPApi SignPNoCV SignPPM P09b SignLRM.
 Open Scope Z_scope.
 
 Definition own_commit_or_precommit_sent (s : nstate) : Prop :=
@@ -200,3 +206,29 @@ Theorem precommit_broadcasts_of_an_epoch_are_identical cfg st g mi g1 s p g2 g1'
   MyIndex s = MyIndex s' -> p = p'.
 Proof. exact (precommit_broadcasts_are_identical cfg st g mi g1 s p g2 g1' s' p' g2'). Qed.
 Print Assumptions precommit_broadcasts_of_an_epoch_are_identical.
+
+(* retransmission inside a recovery message: the building block - wherever it is called from, sendRecoveryMessage of a node
+   whose own Commit slot is filled broadcasts a recovery message of the node's height and view that carries that Commit
+   whole, and changes nothing *)
+Theorem recovery_message_of_a_committed_node_carries_its_commit s0 cm :
+  0 <= MyIndex s0 -> slot (CommitPayloads s0) (MyIndex s0) = Some cm ->
+  hx s0 sendRecoveryMessage (fun _ s tr =>
+    Val tr -> s = s0 /\
+    exists sb p, In (sb, CBroadcast p) tr /\ p_type p = RecoveryMessageT /\
+      p_height p = BlockIndex s0 /\ p_view p = ViewNumber s0 /\ p_idx p = u16 (MyIndex s0) /\
+      (forall q, In q (to_p0 cm) -> carries p q)).
+Proof. exact (sendRecoveryMessage_carries_own_commit s0 cm). Qed.
+Print Assumptions recovery_message_of_a_committed_node_carries_its_commit.
+
+(* over all histories of an epoch: once the node has signed, every RecoveryRequest it is given is answered with a recovery
+   message of its height and of the signed commit's view that carries the commit built at the signature request *)
+Theorem every_recovery_request_after_the_signature_is_answered_with_the_signed_commit cfg st g mi msg :
+  Epoch cfg st g -> KS mi g -> zlen (Validators st) <= 65536 -> nsign g <> 0%nat -> 0 <= mi ->
+  exists c, signed_commit g = Some c /\
+    hx st (onRecoveryRequest cfg msg) (fun _ s tr =>
+      Val tr -> s = st /\
+      exists sb p, In (sb, CBroadcast p) tr /\ p_type p = RecoveryMessageT /\
+        p_height p = BlockIndex st /\ p_view p = p_view c /\ p_idx p = u16 mi /\
+        (forall q, In q (to_p0 c) -> carries p q)).
+Proof. exact (recovery_answer_after_the_signature_carries_the_signed_commit cfg st g mi msg). Qed.
+Print Assumptions every_recovery_request_after_the_signature_is_answered_with_the_signed_commit.
